@@ -303,6 +303,7 @@ type c32World struct {
 	closedAt [][]bool
 	detached []string // "disconnect" / "disconnectall": connection k was unregistered by that Manager method
 	daUsed   bool
+	nDetach, maxDetach int // dc/da events applied / allowed in one history
 	connected map[*peer.Connection]bool
 }
 
@@ -324,8 +325,17 @@ func c32NewWorld(K int) (*c32World, error) {
 	w := &c32World{nt: nt, own: &c32Owner{routes: map[string]int{}, relays: map[string]int{}},
 		wires: make([]*peer.C32Wire, K), conns: make([]*peer.Connection, K), accepted: make([]bool, K),
 		reports: make([]int, K), rd: make([]bool, K), ka: make([]bool, K), dl: make([]bool, K), so: make([]bool, K),
-		q: make([][][]byte, K), twins: make([]*peer.Connection, K), twinCur: -1, mOut: make([]int, K), closedAt: c32ClosedAt(K), detached: make([]string, K)}
+		q: make([][][]byte, K), twins: make([]*peer.Connection, K), twinCur: -1, mOut: make([]int, K), closedAt: c32ClosedAt(K), detached: make([]string, K), maxDetach: c32MaxDetach(K)}
 	return w, nil
+}
+
+// c32MaxDetach bounds the Disconnect / DisconnectAll events of one history: unbounded for pools of up to
+// 2 connections, one for larger pools (keeps the K=3 search at a few thousand states).
+func c32MaxDetach(K int) int {
+	if K <= 2 {
+		return K
+	}
+	return 1
 }
 
 func (w *c32World) close() {
@@ -463,6 +473,7 @@ func (w *c32World) apply(r *vmc.Result, ev string, rep func() any) error {
 			w.detached[k] = "disconnectall"
 			w.daUsed = true
 		}
+		w.nDetach++
 		after := c32Snapshot(nt)
 		r.Outcome(fmt.Sprintf("%s|unregistered=%v|closed=%v|state-kept=%v", p[0], w.registered() == -1, peer.C32IsClosed(w.conns[k]), len(after.routes) == len(before.routes) && len(after.relays) == len(before.relays)))
 		c32OneLive(r, nt, w.conns, w.accepted, rep)
@@ -504,7 +515,7 @@ func (w *c32World) enabled() []string {
 	if next >= 0 {
 		evs = append(evs, fmt.Sprintf("reg:%d", next))
 	}
-	if reg >= 0 {
+	if reg >= 0 && w.nDetach < w.maxDetach {
 		evs = append(evs, fmt.Sprintf("dc:%d", reg))
 		if !w.daUsed {
 			evs = append(evs, fmt.Sprintf("da:%d", reg))
@@ -520,7 +531,7 @@ func (w *c32World) enabled() []string {
 func (w *c32World) canon() string {
 	var sb strings.Builder
 	nt := w.nt
-	fmt.Fprintf(&sb, "reg=%d twin=%d da=%v qlink=%v pseq=%d mseq=%d seen=%d\n", w.registered(), w.twinCur, w.daUsed, nt.agents[c32M].peerMgr.GetPeer(nt.ids[c32Q]) != nil,
+	fmt.Fprintf(&sb, "reg=%d twin=%d da=%v nd=%d qlink=%v pseq=%d mseq=%d seen=%d\n", w.registered(), w.twinCur, w.daUsed, w.nDetach, nt.agents[c32M].peerMgr.GetPeer(nt.ids[c32Q]) != nil,
 		nt.agents[c32P].routeMgr.GetCurrentSequence(), nt.agents[c32M].routeMgr.GetCurrentSequence(), len(nt.agents[c32M].flooder.VerifSeenKeys()))
 	for k := range w.conns {
 		fmt.Fprintf(&sb, "c%d used=%v acc=%v closed=%v rd=%v ka=%v dl=%v so=%v q=%d det=%s\n", k, w.conns[k] != nil, w.accepted[k],
@@ -638,20 +649,28 @@ func TestVerif_C32(t *testing.T) {
 			w1.close()
 			w2.close()
 		}
-		t0 := time.Now()
-		st := c32EventBFS(r, K)
-		fmt.Printf("C32 part A K=%d: states=%d transitions=%d depth=%d complete=%v in %v\n", K, st.States, st.Transitions, st.Depth, st.Complete, time.Since(t0))
-		r.Add("states", st.States)
-		r.Add("transitions", st.Transitions)
-		r.Add("traces_validated_against_impl", st.Transitions)
-		r.Add("event_states", st.States)
-		r.Add("event_transitions", st.Transitions)
-		r.SetMax("bfs_depth", int64(st.Depth))
-		r.Info["event_pool_size"] = K
-		r.Info["event_bfs_fixpoint"] = st.Complete
-		if !st.Complete {
-			r.NotExhaustive("part A BFS did not reach a fixpoint")
+		var ks []int
+		for k := 2; k <= K; k++ {
+			ks = append(ks, k)
 		}
+		fix := map[string]bool{}
+		for _, k := range ks {
+			t0 := time.Now()
+			st := c32EventBFS(r, k)
+			fmt.Printf("C32 part A K=%d: states=%d transitions=%d depth=%d complete=%v in %v\n", k, st.States, st.Transitions, st.Depth, st.Complete, time.Since(t0))
+			r.Add("states", st.States)
+			r.Add("transitions", st.Transitions)
+			r.Add("traces_validated_against_impl", st.Transitions)
+			r.Add("event_states", st.States)
+			r.Add("event_transitions", st.Transitions)
+			r.SetMax("bfs_depth", int64(st.Depth))
+			fix[fmt.Sprintf("K=%d,detach<=%d", k, c32MaxDetach(k))] = st.Complete
+			if !st.Complete {
+				r.NotExhaustive("part A BFS did not reach a fixpoint")
+			}
+		}
+		r.Info["event_pool_sizes"] = ks
+		r.Info["event_bfs_fixpoint"] = fix
 	}
 	c32SchedPart(r)
 	if err := r.Finish(); err != nil {
